@@ -172,6 +172,18 @@ func TestC10PolicyString(t *testing.T) {
 		// the child died while processing input last+1
 		culprit := last + 1
 		if culprit >= len(inputs) || !strings.Contains(string(out), "stack overflow") && !strings.Contains(string(out), "goroutine stack exceeds") {
+			if culprit < len(inputs) && (strings.Contains(string(out), "\npanic: ") || strings.HasPrefix(string(out), "panic: ") || strings.Contains(string(out), "fatal error: ")) {
+				// the Go runtime ended the child inside ExtractFromCiphertext / String() of input culprit
+				// (a panic outside the recovered call or an unrecoverable fatal error): circl, not the harness
+				vlib.Eval(sub)
+				vlib.Class(sub, "panic")
+				in := inputs[culprit]
+				reportOnce(d, "C10/panic/"+e.Name+"/process-died",
+					fmt.Sprintf("entry=%s input(%d bytes)=%s: the helper process died inside ExtractFromCiphertext/Policy.String() (%v):\n%s", e.Name, len(in), vlib.Hex(in), err, tailStr(string(out), 1500)),
+					map[string]interface{}{"entry": e.Name, "input": hex.EncodeToString(in)})
+				start = culprit + 1
+				continue
+			}
 			t.Fatalf("SELFTEST-FAIL the String() helper process failed unexpectedly (%v):\n%s", err, tailStr(string(out), 2000))
 		}
 		vlib.Eval(sub)
@@ -216,6 +228,11 @@ func TestC10PolicyDeepNesting(t *testing.T) {
 			vlib.Class("decode/tkn20", "panic")
 			d.replay = map[string]interface{}{"entry": e.Name, "input": "strings.Repeat(atom, n) + \"a: b\" with atom:n = " + spec}
 			vlib.Report(d, "C10/panic/"+e.Name+"/stack-overflow", fmt.Sprintf("entry=%s input=%q repeated (atom:count = %s) followed by \"a: b\": fatal error: stack overflow in the recursive-descent parser (not recoverable)", e.Name, spec[:strings.LastIndex(spec, ":")], spec))
+		case strings.Contains(string(out), "\npanic: ") || strings.HasPrefix(string(out), "panic: "):
+			// FromString is the only call the child makes: an (ordinary) panic escaped from it
+			vlib.Class("decode/tkn20", "panic")
+			d.replay = map[string]interface{}{"entry": e.Name, "input": "strings.Repeat(atom, n) + \"a: b\" with atom:n = " + spec}
+			vlib.Report(d, "C10/panic/"+e.Name+"/deep-nesting-panic", fmt.Sprintf("entry=%s input=%q repeated (atom:count = %s) followed by \"a: b\": the helper process died with a panic:\n%s", e.Name, spec[:strings.LastIndex(spec, ":")], spec, tailStr(string(out), 1500)))
 		default:
 			t.Fatalf("SELFTEST-FAIL the FromString helper process failed unexpectedly (%v):\n%s", err, tailStr(string(out), 2000))
 		}
